@@ -14,6 +14,19 @@ pub fn canon_expr(e: &Expr) -> String {
 	o
 }
 
+thread_local! {
+	static DESUGAR: std::cell::Cell<bool> = const { std::cell::Cell::new(false) };
+}
+/// like `canon_expr`, with the documented sugar equivalences erased: `local f(p) = e` is printed as
+/// `local f = function(p) e` and a method field `f(p): e` as `f: function(p) e`
+pub fn canon_expr_desugared(e: &Expr) -> String {
+	DESUGAR.with(|d| d.set(true));
+	let mut o = String::new();
+	c_expr(e, &mut o);
+	DESUGAR.with(|d| d.set(false));
+	o
+}
+
 fn destruct_name(d: &Destruct) -> String {
 	match d {
 		Destruct::Full(n) => n.to_string(),
@@ -40,6 +53,13 @@ fn c_bind(b: &BindSpec, o: &mut String) {
 			let _ = write!(o, "(bind {} ", destruct_name(into));
 			c_expr(value, o);
 			o.push(')');
+		}
+		BindSpec::Function { name, params, value } if DESUGAR.with(std::cell::Cell::get) => {
+			let _ = write!(o, "(bind {name} (fn ");
+			c_params(params, o);
+			o.push(' ');
+			c_expr(value, o);
+			o.push_str("))");
 		}
 		BindSpec::Function { name, params, value } => {
 			let _ = write!(o, "(bindfn {name} ");
@@ -71,6 +91,14 @@ fn c_field(f: &FieldMember, o: &mut String) {
 	}
 	let _ = write!(o, " {} {}", if f.plus { "+" } else { "-" }, vis(f.visibility));
 	if let Some(ps) = &f.params {
+		if DESUGAR.with(std::cell::Cell::get) {
+			o.push_str(" (fn ");
+			c_params(ps, o);
+			o.push(' ');
+			c_expr(&f.value, o);
+			o.push_str("))");
+			return;
+		}
 		o.push(' ');
 		c_params(ps, o);
 	}
